@@ -67,7 +67,8 @@ class _EpydocLinker(DocstringLinker):
         """
         
         self._init_obj = obj
-        self._page_object: Optional['model.Documentable'] = obj.page_object
+        self._page_object: Optional['model.Documentable'] = None
+        self._page_object_switched = False
     
     @property
     def obj(self) -> 'model.Documentable':
@@ -82,7 +83,9 @@ class _EpydocLinker(DocstringLinker):
         URL of the page used to compute the relative links from. 
         Can be an empty string to always generate full urls. 
         """
-        pageob = self._page_object
+        # Unless the context is switched, the page is looked up when needed:
+        # the object can be moved by a re-export after the linker is created.
+        pageob = self._page_object if self._page_object_switched else self._init_obj.page_object
         if pageob is not None:
             return pageob.url
         return ''
@@ -91,14 +94,17 @@ class _EpydocLinker(DocstringLinker):
     def switch_context(self, ob:Optional['model.Documentable']) -> Iterator[None]:
         
         old_page_object = self._page_object
+        old_switched = self._page_object_switched
         old_reporting_object = self.reporting_obj
 
         self._page_object = None if ob is None else ob.page_object
+        self._page_object_switched = True
         self.reporting_obj = ob
         
         yield
         
         self._page_object = old_page_object
+        self._page_object_switched = old_switched
         self.reporting_obj = old_reporting_object
 
     def look_for_name(self,
